@@ -3,6 +3,7 @@ CONSTANTS
   MaxFields = 3
   MaxFieldLen = 2
   MaxFieldLen2 = 2
+  MaxFields2 = 1
   MaxText = 6
 INVARIANTS T_FormatsOk T_RoundTrip T_QuoteIffNeeded T_Total T_Plain T_FixedPoint T_NeverIsLossy
 CHECK_DEADLOCK FALSE
